@@ -4,3 +4,16 @@ RC.append(("np.linalg.solve with a batched matrix and a vector right-hand side t
            [("C07", "solve", "RR", "hessian-not-symmetric", "batch_broadcast:True,rhs_vector:True"), ("C07", "solve", "RR", "wrong-value", "batch_broadcast:True,rhs_vector:True")]))
 RC.append(("np.linalg.norm with a tuple of negative axes: wrong first-order rule (see C01) hence disagreeing / asymmetric / wrong second derivatives",
            [("C07", "norm", "*", k, "axis_sign:tuple-neg") for k in ("hessian-not-symmetric", "routes-disagree", "wrong-value", "wrong-shape")]))
+RC.append(("np.diag of a non-square 2-D array (namespace scan; same root cause as the C01 entry)", [("C15", "diag", "rev", "wrong-shape", "shape_rank:2")]))
+RC.append(("forward-mode np.sort / np.partition of 2-D arrays (namespace scan; same root cause as the C02 entry)",
+           [("C15", "sort", "fwd", "wrong-shape", "shape_rank:2"), ("C15", "partition", "fwd", "wrong-shape", "shape_rank:2"),
+            ("C15", "sort", "fwd", "silently-wrong", "shape_rank:2"), ("C15", "partition", "fwd", "silently-wrong", "shape_rank:2")]))
+RC.append(("forward-mode np.linspace with an array-valued start or stop: the JVP rebuilds linspace(g, 0) and loses the other operand's shape",
+           [("C15", "linspace", "fwd", "wrong-shape", "shape_rank:0")]))
+RC.append(("np.clip of a scalar/0-d x against array-valued bounds: the VJP is not summed back to x's shape",
+           [("C15", "clip", "rev", "wrong-shape", "shape_rank:0")]))
+RC.append(("np.linspace with array-valued start/stop (NumPy broadcasts them): the reverse rule contracts the wrong axis and returns silently wrong or misshapen gradients",
+           [("C15", "linspace", "rev", "silently-wrong", "shape_rank:~[12]"), ("C15", "linspace", "rev", "wrong-shape", "shape_rank:~[012]"),
+            ("C15", "linspace", "fwd", "silently-wrong", "shape_rank:~[12]"), ("C15", "linspace", "fwd", "wrong-shape", "shape_rank:~[12]")]))
+RC.append(("forward-mode np.diff with prepend/append: the 'same' rule applies diff to the tangent *with the primal prepend/append values* instead of zeros",
+           [("C15", "diff", "fwd", "silently-wrong", "template_len:4")]))
